@@ -44,6 +44,10 @@ TAG_DETERMINED = {
 }
 
 
+# fields which record the mere presence of an empty tag: False is not a describable value
+PRESENCE_ONLY = {("EnvironmentData", "all_value"): "<ALL-VALUE/> is present or absent"}
+
+
 def contextual_fields(cls):
     """fields which from_et receives from the enclosing element (extra parameters of from_et: the data types a compu
     method, scale, limit or constant is interpreted with): not independently described either"""
@@ -234,7 +238,10 @@ def field_table(db):
         hints = hints_of(cls)
         ctx = contextual_fields(cls)
         for f in dataclasses.fields(o):
-            if f.name in SKIP_FIELDS or f.name.startswith("_") or f.name.endswith("_snref") or f.name.endswith("snrefs"):
+            if f.name in SKIP_FIELDS or f.name.startswith("_") or f.name.endswith("_snref") or f.name.endswith("snrefs") \
+                    or f.name.endswith("_snpathref"):
+                continue
+            if (cls.__name__, f.name) in PRESENCE_ONLY:
                 continue
             if f.name in TAG_DETERMINED or f.name in ctx:
                 continue
@@ -299,6 +306,14 @@ def base_databases(rng, quick):
     if hasattr(c15, "emit"):
         pass
     out.append(("extras", lambda: hc.load_docs([open(os.path.join(os.path.dirname(os.path.abspath(__file__)), "c11_extra.xml")).read()])))
+    def mk_extras2():
+        from odxtools.database import Database
+        db = Database()
+        db.add_auxiliary_file("lib.jar", io.BytesIO(b"library"))
+        db._process_xml_tree(ET.fromstring(open(os.path.join(os.path.dirname(os.path.abspath(__file__)), "c11_extra2.xml")).read()))
+        db.refresh()
+        return db
+    out.append(("extras2", mk_extras2))
     out.append(("comparams", lambda: hc.load_docs([hc.cpsubset_doc(), hc.cpsubset2_doc(), hc.cpspec_doc()])))
     return out
 
